@@ -6,10 +6,10 @@
 (***************************************************************************)
 EXTENDS ObsCore, Expr, TraceBase
 
-Rtol(c) == IF c.mode = "num" THEN "1/1000000" ELSE IF c.mode \in {"root", "quad"} THEN "1/10000000" ELSE "1/1000000000"
+Rtol(c) == IF c.mode = "num" THEN "1/1000000" ELSE IF c.mode \in {"root", "quad", "fit"} THEN "1/10000000" ELSE IF c.mode = "fitnum" THEN "1/10000" ELSE "1/1000000000"
 
 MaxAbs(seq) == RMaxAbsSeq(seq)
-SubSeqBy(seq, idx) == [k \in DOMAIN idx |-> seq[idx[k]]]
+SubSeqBy(seq, idx) == TLCEval([k \in DOMAIN idx |-> seq[idx[k]]])
 
 CovMatch(obs, ops, g, ag, rtol, id) ==
   LET names == AllCovNames(ops) IN
@@ -37,9 +37,9 @@ CheckReal(id, c, e, allops, used, res, stepwise) ==
       exp  == TLCEval(DeriveChains(ops, g))
       dsc  == DeltaScale(ops)
       ag   == SubSeqBy(TLCEval(AGrad(e, vals)), used)
-      atolD == RAdd("1/1000000000000000000000000000000", RMul(RMul(IF c.mode = "num" THEN "1/1000000" ELSE IF c.mode \in {"root", "quad"} THEN "1/10000000" ELSE "1/1000000000", MaxAbs(ag)), dsc))
+      atolD == RAdd("1/1000000000000000000000000000000", RMul(RMul(Rtol(c), MaxAbs(ag)), dsc))
       ev   == Eval(e, vals)
-      atolV == RMul(IF c.mode \in {"root", "quad"} THEN "1/100000000" ELSE "1/100000000000", RAdd("1", AVal(e, vals)))
+      atolV == RMul(IF c.mode \in {"root", "quad", "fit", "fitnum"} THEN "1/100000000" ELSE "1/100000000000", RAdd("1", AVal(e, vals)))
   IN /\ Verdict(id, "wellformed:" \o WFClause(o), WellFormed(o))
      /\ Verdict(id, "value", RClose(o.value, ev, rtol, atolV))
      /\ Verdict(id, "chains.names", [k \in DOMAIN o.chains |-> o.chains[k].name] = [k \in DOMAIN exp |-> exp[k].name])
